@@ -13,12 +13,12 @@ CLAIMED = {
             "net/url and strings.ToLower trusted; scheme-less+port, percent-escapes and empty inner segments are left open (no-panic only) because the statement is silent about them",
             "5 C20"),
     "C17": ("model_checking",
-            "TLA+ spec (RpcErrorDef/RpcError.tla) model-checked with TLC; TLC-enumerated error texts replayed into RpcErrorToNative/TryExpandError",
+            "TLA+ spec (RpcErrorDef/RpcError.tla) model-checked with TLC; TLC-enumerated error texts replayed into RpcErrorToNative/TryExpandError; Bootstrap.tla (application client: config -> data-centre list -> migration) model-checked, its cases replayed through telegram.NewClient against four live servers and judged by TLC (BootstrapTrace.tla)",
             "TLC checks exhaustively over ~6.6k token-structured error texts that the table-scan machine shaped like TryExpandError ends in the declared (message, parameter), never in a panic state, and that at most one table row yields a numeric parameter (precedence cannot matter); every text with its declared outcome is replayed in seeded concretisations into the real functions, and every catalogued error name extracted from errors.go is checked against its description.",
             "strconv.Atoi trusted; texts whose parameter is not a plain in-range decimal are open (no panic, structured error) as the statement demands no more; end-to-end delivery and PHONE_MIGRATE handling are covered by the session-engine harness when built",
             "5 C17"),
     "C12": ("model_checking",
-            "TLA+ spec (SessionStore.tla) model-checked with TLC; op sequences executed on real files and trace-validated by TLC (SessionStoreTrace.tla)",
+            "TLA+ spec (SessionStore.tla) model-checked with TLC; op sequences executed on real files and trace-validated by TLC (SessionStoreTrace.tla); Lifecycle.tla and Bootstrap.tla behaviours (restart / NewClient on a session file) replayed and judged by TLC",
             "TLC checks exhaustively (2 loaders, 2 sessions, 4 clock values) that with the mtime-keyed cache of the implementation a load always returns the last stored session, notfound or error for a torn file, and that NoInvalidateOnStore / CoarseForeign each break it; then every op sequence up to length 4 (5 in thorough) over Store/Load/Tick/Crash and every crash prefix of the file is executed on real files through session.NewFromFile and each recorded event is judged by TLC against the specification.",
             "file-system clock modelled by os.Chtimes to an abstract clock; torn file = strict prefix of the whole-file write; the resume-without-key-exchange half is exercised by the session-engine harness when built",
             "5 C12"),
@@ -48,7 +48,7 @@ CLAIMED = {
             "the reference server (harness/refsrv, independent TL/IGE/envelope/handshake) plays the specification's server; hook gates (tag verif) only steer schedules, verdicts come from what the server and the callers observed; a stall needs a recorded time-out with goroutine dump",
             "5 C09"),
     "C10": ("model_checking",
-            "TLA+ spec (Client.tla: WireIdsIncrease, SeqNoRules) model-checked with TLC; TLC-simulated interleavings replayed through hook gates; server's arrival-order log validated by TLC (ClientTrace.tla)",
+            "TLA+ spec (Client.tla: WireIdsIncrease, SeqNoRules) model-checked with TLC; the numbering alone (MsgIds.tla) over unbounded integers: inductive invariant discharged by Apalache, window checked by TLC, four deviations must break it; TLC-simulated interleavings replayed through hook gates; server's arrival-order log validated by TLC (ClientTrace.tla)",
             "TLC checks that with id generation inside the send lock (and the +4 bump on a standing clock) wire ids strictly increase in write order and seq_no parity/monotonicity hold for every interleaving of callers and the loop's own acknowledgements, and that GenIdOutsideLock breaks it. The same interleavings (callers held right after taking their id, released in any order, acknowledgements racing with senders) are replayed on the real client; the reference server's log of (msg_id, seq_no, kind) in arrival order and the set of acknowledged content-related messages (plain and inside containers) are judged by TLC.",
             "the reference server (harness/refsrv, independent TL/IGE/envelope/handshake) plays the specification's server; hook gates (tag verif) only steer schedules, verdicts come from what the server and the callers observed; a stall needs a recorded time-out with goroutine dump; arrival order at the server = write order (one TCP connection); whether an ack advances seq_no is left open",
             "5 C10"),
